@@ -287,7 +287,7 @@ PROPS["C16"] = dict(
 _SYNC_RULE = ("pairs of (local CLI repository on badger+SQLite, remote repository behind an in-process reference HTTP server assembled from the repository's own finder/sender/receiver) "
               "grown from a common history of 1..3 commits and then made remote-ahead / local-ahead / diverged / equal / unrelated, with a tag that may move and an optional second branch (equal / ahead / unrelated / rewound); one of `wrgl fetch` (forced or "
               "plain glob refspec or explicit per-branch refspecs with independent force flags in either order, with/without tags, depth 0..2), `wrgl push`, `wrgl pull`, `wrgl merge` (ff / no-ff / ff-only), with and without --force; max packfile size 1 / 700 / 5000 / default; "
-              "the server refuses or accepts non-fast-forwards; refs, latest reflog entries, commits and usable tables of both sides observed before and after, and after an immediate repeat; "
+              "the server refuses or accepts non-fast-forwards; 1 in 6 fetches / pulls with the first 1..6 packfile responses cut by an HTTP/2 stream error; refs, latest reflog entries, commits and usable tables of both sides observed before and after, and after an immediate repeat; "
               "non-trivial = remote-ahead, diverged or unrelated; distinct = distinct (op, input)")
 
 PROPS["C09"] = dict(
